@@ -366,7 +366,7 @@ def run(tier, replay=None):
             dup = len(set(map(tuple, g))) < ploidy
             case = {"move": move, "ploidy": ploidy, "n_alleles": n_alleles, "genotype": g, "inbreeding": F, "temp": T,
                     "counts": counts.tolist(), "reads": [[[None if math.isnan(x) else x for x in row] for row in rd] for rd in reads.tolist()]}
-            chk.count(f"move={move}"); chk.count(f"T={T}"); chk.count(f"F={F}"); chk.count(f"ploidy={ploidy}")
+            chk.count(f"move={move}"); chk.count(f"T={T}" if T in TEMPS else "T=other(1e-4..1)"); chk.count(f"F={F}"); chk.count(f"ploidy={ploidy}")
             if math.isinf(float(log_likelihood(reads, garr, read_counts=counts))):
                 chk.count("skipped:current-likelihood-zero")
                 continue
